@@ -47,6 +47,9 @@ def pin_environment() -> None:
 
     if not os.path.abspath(dep_logic.__file__).startswith(os.path.abspath(src)):
         raise HarnessError(f"dep_logic imported from {dep_logic.__file__}, not {src}")
+    # the pristine content of dep_logic's module-level containers is recorded before any operation has run
+    global _CONTAINERS
+    _CONTAINERS = _snapshot_containers()
 
 
 # --------------------------------------------------------------------------
@@ -80,12 +83,50 @@ def _find_caches() -> list:
     return found
 
 
+_CONTAINERS: list | None = None
+
+
+def _snapshot_containers() -> list:
+    """Module-level and class-level mutable containers of dep_logic (a hand-rolled memo is a dict, not a functools
+    cache) with a copy of their import-time content: (container, pristine copy)."""
+    import pkgutil
+
+    import dep_logic
+
+    out, seen = [], set()
+    for mod in pkgutil.walk_packages(dep_logic.__path__, "dep_logic."):
+        try:
+            m = importlib.import_module(mod.name)
+        except Exception:
+            continue
+        holders = [m] + [v for v in vars(m).values() if isinstance(v, type) and getattr(v, "__module__", "").startswith("dep_logic")]
+        for h in holders:
+            for name, v in list(vars(h).items()):
+                if name.startswith("__") or id(v) in seen:
+                    continue
+                if type(v) in (dict, list, set):
+                    seen.add(id(v))
+                    out.append((v, type(v)(v)))
+    return out
+
+
 def reset_caches() -> None:
-    global _CACHES
+    global _CACHES, _CONTAINERS
     if _CACHES is None:
         _CACHES = _find_caches()
+    if _CONTAINERS is None:
+        _CONTAINERS = _snapshot_containers()
     for c in _CACHES:
         c.cache_clear()
+    for live, pristine in _CONTAINERS:
+        if live != pristine:
+            live.clear()
+            if isinstance(live, dict):
+                live.update(pristine)
+            elif isinstance(live, list):
+                live.extend(pristine)
+            else:
+                live.update(pristine)
 
 
 def cache_sizes() -> int:
@@ -436,3 +477,4 @@ def write_evidence(prop, tier, seed, acc: Acc, meta: dict, wall: float, violatio
         json.dump(ev, f, indent=1, default=_jsonable)
     os.replace(tmp, path)
     return path
+
